@@ -118,7 +118,7 @@ def harness(sym):
                     sym.check(attempts == 0, f"reconnect-in-{ref}", f"{trace}: reconnect attempted in state {ref}")
             if ref is None:
                 ref = dec.state.name if dec.state.name in (("Issue", "Reconnect") if before == "Issue" else ("Reconnect", "Error")) else "?"
-                if ref == "Reconnect":
+                if ref == "Reconnect" and before == "Issue":
                     reconnect_since = clock.now
             sym.check(dec.state.name == ref, f"state|expected={ref}|op={op}",
                       f"{trace}: decorator state {dec.state.name}, protocol says {ref}")
@@ -129,8 +129,12 @@ def harness(sym):
 
 
 def _shards(tier):
+    # a prefix of three failing-capable reads lets the solver reach Reconnect/Error (it chooses the failure bits and the
+    # elapsed times); the free operations after it include the reconnecting ticks
+    deep = [{"n": 4, "ops": ["read", "read", "read"], "connected": True}, {"n": 4, "ops": ["write_batch", "read", "write"], "connected": True},
+            {"n": 5, "ops": ["read", "read", "read", "tick6"], "connected": True}]
     if tier == "quick":
-        return [{"n": 3, "ops": [a], "connected": c} for a in OPS for c in (True, False)]
+        return deep + [{"n": 3, "ops": [a], "connected": c} for a in OPS for c in (True, False)]
     return [{"n": 5, "ops": [a, b], "connected": c} for a in OPS for b in OPS for c in (True, False)]
 
 
@@ -140,7 +144,7 @@ OBLIGATIONS = [Obligation(
     encoded=["openpectus.engine.hardware_recovery:ErrorRecoveryDecorator"],
     symbolic="per step: operation selector over read/read_batch/write/write_batch/tick/6 ticks/connect, hardware failure bit, reconnect outcome, "
              "elapsed integer seconds 0..20000 (crosses the 10 s and 18000 s timeouts by solver choice), device and written values",
-    bounds={"quick": "3 operations from either initial state (connected / disconnected hardware)", "thorough": "5 operations"},
+    bounds={"quick": "3 operations from either initial state (connected / disconnected hardware), plus 4/5-operation sequences starting with read,read,read(,tick6) or write_batch,read,write (reach Error and recover)", "thorough": "5 operations"},
     assumptions=["hardware_recovery.time replaced by a harness clock (arbitrary non-decreasing integer seconds)",
                  "_setup_decorated_method_forwards stubbed", "decorated hardware = in-memory fake",
                  "at exactly timeout seconds either successor state is accepted (the documentation does not fix the boundary)",
